@@ -230,6 +230,8 @@ def classes(tr, case):
     for k in ("g90e", "debug", "enter", "exit", "ext", "at"):
         if cfg.get(k):
             cl.add("cfg_" + k)
+    if case.get("via") == "plugin":
+        cl.add("via_plugin_hooks")
     if tr.truncated:
         cl.add("truncated_at_border")
     return cl, suppressed_in_closed
